@@ -113,7 +113,7 @@ class Proof:
             res['detail'] = 'goto-instrument failed: ' + (out + err)[-3000:]
             return res
         res['instrument_log'] = (out + err)[-2000:]
-        cmd = ['cbmc', '--json-ui', '--object-bits', str(self.object_bits)] + self.solver + ([] if self.no_std_checks else CBMC_FLAGS) + self.flags
+        cmd = ['cbmc', '--object-bits', str(self.object_bits)] + self.solver + ([] if self.no_std_checks else CBMC_FLAGS) + self.flags
         if self.unwind:
             cmd += ['--unwind', str(self.unwind), '--unwinding-assertions']
         for u in self.unwindset:
@@ -121,13 +121,16 @@ class Proof:
         if self.unwindset and not self.unwind:
             cmd += ['--unwinding-assertions']
         cmd += [b]
+        self.cbmc_cmd = cmd
         rc, out, err, dt = _run(cmd, self.timeout)
         res['solver_time_s'] = round(dt, 2)
-        for f in (a, b):
-            try:
-                os.unlink(f)
-            except OSError:
-                pass
+        if not os.environ.get('VERIF_KEEP_GB'):
+            for f in (a,):
+                try:
+                    os.unlink(f)
+                except OSError:
+                    pass
+        self.gb = b
         if rc == 'toolarge':
             res['status'] = 'tool-error'
             res['detail'] = err
@@ -136,27 +139,30 @@ class Proof:
             res['status'] = 'timeout'
             res['detail'] = 'cbmc exceeded %ds' % self.timeout
             return res
-        try:
-            msgs = json.loads(out)
-        except Exception:
-            res['status'] = 'tool-error'
-            res['detail'] = 'cbmc output not JSON (rc=%s): %s' % (rc, (out + err)[-2000:])
-            return res
+        # plain-text result lines:  [name] line N description: STATUS     (the JSON UI builds a full trace per failed
+        # property, gigabytes for large functions; traces are requested separately, per property, when needed)
         obligations = []
         warnings = []
         status = None
-        for m in msgs:
-            if 'result' in m:
-                for r in m['result']:
-                    ob = {'name': r.get('property'), 'description': r.get('description'), 'status': r.get('status'),
-                          'line': (r.get('sourceLocation') or {}).get('line'), 'function': (r.get('sourceLocation') or {}).get('function')}
-                    if r.get('status') == 'FAILURE' and r.get('trace'):
-                        ob['trace'] = compact_trace(r['trace'])
-                    obligations.append(ob)
-            if m.get('messageType') in ('WARNING', 'ERROR'):
-                warnings.append(m.get('messageText', ''))
-            if 'cProverStatus' in m:
-                status = m['cProverStatus']
+        curfn = None
+        for line in out.splitlines():
+            m = re.match(r'^\[([^\]]+)\] (?:line (\d+) )?(.*): (SUCCESS|FAILURE|UNKNOWN|ERROR)$', line)
+            if m:
+                obligations.append({'name': m.group(1), 'description': m.group(3), 'status': m.group(4), 'line': int(m.group(2)) if m.group(2) else None, 'function': curfn})
+                continue
+            m = re.match(r'^\S+ function (\S+)$', line)
+            if m:
+                curfn = m.group(1)
+                continue
+            if line.startswith('VERIFICATION SUCCESSFUL'):
+                status = 'success'
+            elif line.startswith('VERIFICATION FAILED'):
+                status = 'failure'
+            elif re.match(r'^(\*\*\*\* WARNING|warning:|WARNING)', line) or 'ignoring' in line:
+                warnings.append(line.strip())
+        for line in err.splitlines():
+            if re.search(r'warning|ignoring|unsupported', line, re.I):
+                warnings.append(line.strip())
         res['obligations'] = obligations
         res['warnings'] = [w for w in warnings if w][:20]
         if status is None:
@@ -179,9 +185,34 @@ class Proof:
                 res['status'] = 'tool-error'
                 res['detail'] = 'loop contract silently dropped (no loop_invariant_step obligation)'
                 return res
+        if status == 'success' and any(o['status'] != 'SUCCESS' for o in obligations):
+            status = 'failure'
         res['status'] = 'pass' if status == 'success' else 'fail'
         res['wall_s'] = round(time.time() - t0, 2)
         return res
+
+
+def get_trace(proof, prop_name, timeout=600):
+    """counterexample trace of ONE failed property (JSON steps, compacted); None if cbmc gives none in time"""
+    gb = getattr(proof, 'gb', None)
+    cmd = getattr(proof, 'cbmc_cmd', None)
+    if not gb or not cmd or not os.path.exists(gb):
+        return None
+    cmd = [c for c in cmd if c != gb]
+    cmd = [cmd[0], '--json-ui', '--trace', '--property', prop_name] + cmd[1:] + [gb]
+    rc, out, err, dt = _run(cmd, timeout)
+    if rc in ('timeout', 'toolarge'):
+        return None
+    try:
+        msgs = json.loads(out)
+    except Exception:
+        return None
+    for m in msgs:
+        if isinstance(m, dict):
+            for r in m.get('result', []):
+                if r.get('property') == prop_name and r.get('trace'):
+                    return compact_trace(r['trace'])
+    return None
 
 
 def compact_trace(trace, limit=400):
@@ -193,7 +224,7 @@ def compact_trace(trace, limit=400):
             if lhs.startswith('__CPROVER') or lhs.startswith('__dfcc') or 'return_value' in lhs and 'tmp' in lhs:
                 continue
             v = st.get('value', {})
-            out.append({'lhs': lhs, 'value': v.get('data', v.get('name')), 'line': (st.get('sourceLocation') or {}).get('line'),
+            out.append({'lhs': lhs, 'value': v.get('data', v.get('name')), 'binary': v.get('binary'), 'line': (st.get('sourceLocation') or {}).get('line'),
                         'fn': (st.get('sourceLocation') or {}).get('function')})
     return out[-limit:]
 
